@@ -41,6 +41,8 @@ def run(res, tier, seed, shard, nshards):
         crossing_closes(res, W, tier, seed)
     if shard == 1 % nshards:
         real_tls_close(res, W)
+    if shard == 3 % nshards:
+        real_tcp_close_with_queued_data(res, W)
     if shard == 2 % nshards:
         for peer2 in ("silent", "answers"):
             for sock_to1 in (None, 30):
@@ -85,6 +87,15 @@ def run(res, tier, seed, shard, nshards):
                         wi += 1
                         if wi % nshards == shard:
                             write_failure_case(res, W, rng, api, k, err, nolock)
+        # a receive call timed out in the middle of a frame whose payload bytes, taken by themselves, look like complete little frames; then
+        # the connection is closed / shut down: later receive calls raise the connection-closed exception, they do not dig in leftovers
+        li = 0
+        for got in (8, 24, 40):
+            for closer in ("close", "shutdown", "close-then-shutdown"):
+                for api in ("recv", "recv_data", "recv_frame"):
+                    li += 1
+                    if li % nshards == shard:
+                        leftover_case(res, W, got, closer, api)
         # statuses and reasons for R5
         if shard == 0:
             for status in (-1, 0, 999, 1000, 1001, 3000, 4999, 65535, 65536, 1 << 20):
@@ -289,6 +300,56 @@ def history_case(res, W, rng, hist, mode, exhaustive):
         elif exc is not None and not isinstance(exc, (W.WebSocketException, OSError, ValueError)):
             bad("internal-exception", i, f"{ename}: {exc}", got=ename)
     res.sample(case, cap=3) if nontrivial else None
+
+
+def leftover_case(res, W, got, closer, api):
+    inner = R.encode(R.TEXT, b"hello") + R.encode(R.TEXT, b"abc") + R.encode(R.BINARY, b"\x01\x02\x03\x04\x05\x06") + R.encode(R.PING, b"p")
+    payload = (inner * 4)[:64]
+    frame = R.encode(R.BINARY, payload)
+    so, conn = net.pair()
+    hs = H.HandshakePeer(conn)
+    w = W.WebSocket()
+    so.settimeout(0.5)
+    w.sock_opt.timeout = 0.5
+    w.connect("ws://sim.test/", socket=so)
+    conn.deliver(frame[:2 + got])  # header + part of the payload, then silence
+    case = {"gen": "leftover", "payload_bytes_received": got, "closed_by": closer, "call": api}
+    res.case(("leftover", got, closer, api), nontrivial=True)
+    res.count("leftover_cases")
+    try:
+        getattr(w, api)()
+        return  # (cannot happen: the frame is incomplete)
+    except W.WebSocketTimeoutException:
+        pass
+    except Exception as e:  # noqa
+        res.violation("internal-exception", f"receive on a half-arrived frame: {type(e).__name__}: {e}", case, step_call=api, got=type(e).__name__)
+        return
+    try:
+        if closer.startswith("close"):
+            w.close(timeout=0.2)
+        if closer.endswith("shutdown"):
+            w.shutdown()
+    except Exception as e:  # noqa
+        res.violation("close-raised", f"{closer} after a receive timeout inside a frame: {type(e).__name__}: {e}", case, step_call="close", got=type(e).__name__)
+        return
+    if not conn.client_closed:
+        res.violation("transport-not-released", f"{closer} after a receive timeout inside a frame left the transport open", case, step_call="close", via=closer, prior="timeout-mid-frame")
+        return
+    log_before = len(conn.log)
+    for i in range(3):
+        try:
+            v = getattr(w, api)()
+            res.violation("no-closed-exception-after-release", f"after {closer}, {api}() #{i + 1} returned {repr(v)[:60]} (bytes left over from the frame that was being "
+                          f"received when the connection was closed) instead of raising WebSocketConnectionClosedException", case, step_call=api, got="returned")
+            return
+        except W.WebSocketConnectionClosedException:
+            res.count("post_release_calls_checked")
+        except Exception as e:  # noqa
+            res.violation("no-closed-exception-after-release", f"after {closer}, {api}() #{i + 1} raised {type(e).__name__}: {e} instead of WebSocketConnectionClosedException",
+                          case, step_call=api, got=type(e).__name__)
+            return
+    if len(conn.log) != log_before or conn.calls_after_close:
+        res.violation("transport-touched-after-release", f"after {closer}, {api}() touched the transport: {conn.calls_after_close[:3]}", case, step_call=api)
 
 
 def write_failure_case(res, W, rng, api, k, err, nolock):
@@ -597,6 +658,81 @@ def crossing_closes(res, W, tier, seed):
                 judge(out, S, f"random piece={piece}")
             except sched.SimFailure as e:
                 res.violation("hang", f"crossing closes: {type(e).__name__}: {e}", {"gen": "crossing-closes", "decisions": list(S.decisions)[:200]}, how=type(e).__name__)
+
+
+def real_tcp_close_with_queued_data(res, W):
+    """R6 on a real TCP connection whose peer has stopped reading while earlier messages of the client still sit in the kernel's send
+    queue: close(timeout=0.5) and shutdown() return promptly all the same (they must not wait for the queue to drain).  Generous
+    limit (5 s); has to reproduce twice before it is reported."""
+    import socket
+    import threading
+    import time
+    for what in ("close", "shutdown"):
+        for attempt in range(2):
+            lsock = socket.socket()
+            lsock.setsockopt(socket.SOL_SOCKET, socket.SO_REUSEADDR, 1)
+            lsock.setsockopt(socket.SOL_SOCKET, socket.SO_RCVBUF, 4096)
+            lsock.bind(("127.0.0.1", 0))
+            lsock.listen(1)
+            port = lsock.getsockname()[1]
+            stop = threading.Event()
+
+            def server(lsock=lsock, stop=stop):
+                try:
+                    lsock.settimeout(10)
+                    c, _ = lsock.accept()
+                    buf = b""
+                    while b"\r\n\r\n" not in buf:
+                        d = c.recv(4096)
+                        if not d:
+                            return
+                        buf += d
+                    c.sendall(H.response_101(H.request_key(buf) or ""))
+                    stop.wait(20)  # ... and never read again
+                    c.close()
+                except OSError:
+                    pass
+                finally:
+                    lsock.close()
+            th = threading.Thread(target=server, daemon=True)
+            th.start()
+            box = {}
+
+            def client(port=port, box=box, what=what):
+                try:
+                    w = W.create_connection(f"ws://127.0.0.1:{port}/", timeout=0.3)
+                    try:
+                        for _ in range(6):
+                            w.send_binary(b"q" * 65536)
+                    except Exception:  # noqa
+                        pass  # the queue is full: exactly the situation wanted
+                    t0 = time.monotonic()
+                    if what == "close":
+                        w.close(timeout=0.5)
+                    else:
+                        w.shutdown()
+                    box["dt"] = time.monotonic() - t0
+                except BaseException as e:  # noqa
+                    box["exc"] = e
+            ct = threading.Thread(target=client, daemon=True)
+            ct.start()
+            ct.join(8.0)
+            slow = ct.is_alive() or box.get("dt", 0) > 5.0
+            stop.set()
+            if slow and attempt == 0:
+                ct.join(15)
+                continue
+            res.case(("real-tcp-close-queued", what), nontrivial=True)
+            res.count("real_tcp_close_runs")
+            res.count("close_durations_checked")
+            case = {"gen": "real-tcp-close-queued", "call": what}
+            if slow:
+                res.violation("close-timeout-exceeded", f"real TCP connection whose peer stopped reading, unsent data queued: {what}() had not returned after "
+                              f"{'8' if ct.is_alive() else round(box['dt'], 2)} s", case, step_call=what, peer="tcp-not-reading", socket_timeout="0.3")
+            elif "exc" in box and "dt" not in box:
+                res.notes[f"real_tcp_close:{what}"] = f"skipped: {box['exc']!r}"
+            ct.join(15)
+            break
 
 
 def real_tls_close(res, W):
